@@ -142,7 +142,9 @@ def run(ctx, mod, a):
         ctx.violation('harness-exception', {'traceback': traceback.format_exc()[-3000:]}, False,
                       'the correspondence harness itself raised')
     # 6. broken obligations without a concrete failing input ---------------------------
-    any_found = any(v['found'] for v in ctx.violations)
+    known = lib.load_known()
+    # a listed known finding reproducing is not "a failing input was found" for a broken obligation
+    any_found = any(v['found'] and lib.match_known(prop, v, known) is None for v in ctx.violations)
     for what, det in proof_broken + tie_broken:
         if not any_found:
             ctx.violation(what, {'no_longer_checks': what, 'detail': det}, False, det)
@@ -159,7 +161,6 @@ def run(ctx, mod, a):
             ctx.violation('coqchk:Props/%s.vo' % prop, {'no_longer_checks': 'coqchk', 'detail': out[-1500:]}, False, out[-600:])
 
     # 8. report ------------------------------------------------------------------------
-    known = lib.load_known()
     printed = 0
     unlisted = 0
     seen = set()
